@@ -37,6 +37,7 @@ def run(chk):
     chk.guard(r20_1_publish_last, chk)
     chk.guard(r20_2_add_methods, chk)
     chk.guard(r20_3_write, chk)
+    chk.guard(r20_3_refusal_order, chk)
     chk.guard(r20_4_atomic_setters, chk)
 
 
@@ -212,6 +213,53 @@ def r20_3_write(chk):
                 f"{[e.func.short for e in late][:3]} can refuse the write after the frame / channels were already "
                 f"modified from the data: the failed write leaves derived values on the specification although the check "
                 f"could have run first", mk.where)
+
+
+def r20_3_refusal_order(chk):
+    """Inside the set-up of one object from the data (a channel, the frame): a refusal that is decided *after* a derived
+    value was already stored leaves that value behind although the write did not happen.  Every (stored attribute part,
+    attribute the later refusal is about) pair is an obligation, keyed semantically (whichever helper stores or raises)."""
+    from ..terms import subterms, refusal_literals, passed_refusal, pp
+    ix = chk.ix
+
+    def path(t):
+        out = []
+        while t[0] == "attr":
+            out.append(t[2])
+            t = t[1]
+        return ".".join(reversed(out))
+
+    def spec_paths(l):
+        return sorted({path(x) for x in subterms(l) if x[0] == "attr" and x[2] in ("value", "units")
+                       and x[1][0] == "attr"})
+    n = 0
+    for cname, mname in (("ChannelItem", "set_dimension_and_repr_code_from_data"), ("FrameItem", "setup_from_data")):
+        f = ix.get_method(cname, mname)
+        if f is None:
+            raise AnalysisError(f"{cname}.{mname} not found")
+        chk.consult(f)
+        su = chk.terms.inline(f, 4, stop=lambda g: g.cls is not None and g.cls.name == "ReprCodeConverter")
+        ref = refusal_literals(su)
+        stores, pairs = [], {}
+        for i, e in enumerate(su.effects):
+            if e.kind == "store_attr" and e.base[0] != "call" and e.key in ("value", "units"):
+                stores.append((i, path(("attr", e.base, e.key)), e))
+            elif e.kind == "call" and e.value[1] == ("global", "setattr") and len(e.value[2]) == 3 and \
+                    e.value[2][1][0] == "const":
+                stores.append((i, path(("attr", e.value[2][0], e.value[2][1][1])), e))
+            elif e.kind == "raise":
+                own = [l for l in e.pc if not passed_refusal(l, ref)]
+                subj = "+".join(sorted({p_ for l in own for p_ in spec_paths(l)}))
+                for j, k, s_ in stores:
+                    if j < i and k:
+                        pairs.setdefault((k, subj), (s_, e))
+        n += len(stores)
+        for (k, subj), (s_, e) in sorted(pairs.items()):
+            chk.fail("R20.3", f"store-before-refusal:{cname}.{k}|{subj or 'other'}",
+                     f"{cname}: `{k}` is derived from the data and stored before the refusal about `{subj or '?'}` is "
+                     f"decided ({e.func.short}): a write refused there leaves the stored value on the specification",
+                     s_.where)
+    chk.floor("derived stores in the per-object set-up", n, 4)
 
 
 def r20_4_atomic_setters(chk):
